@@ -41,12 +41,12 @@ def program(rnd):
     body = []
     for k in range(rnd.randint(1, 3)):
         name = "N%d" % k
-        kind = rnd.choice(["lig", "lig", "lig", "single", "multiple", "ctx"])
+        kind = "lig" if k == 0 else rnd.choice(["lig", "lig", "single", "multiple", "ctx"])
         rules = []
         if kind == "lig":
-            for _ in range(rnd.randint(1, 3)):
+            for j in range(rnd.randint(1, 3)):
                 x = rnd.choice(bases)
-                y = rnd.choice(formed if rnd.random() < 0.8 else bases)
+                y = formed[0] if (k == 0 and j == 0) else rnd.choice(formed if rnd.random() < 0.8 else bases)
                 if any(r[0] == x and r[1] == y for r in rules):
                     continue
                 rules.append((x, y, need("%s_%s" % (x, y))))
@@ -83,9 +83,9 @@ def program(rnd):
     feats = []
     for tag in late:
         rl = []
-        for _ in range(rnd.randint(1, 3)):
-            name, kind, rules = rnd.choice(nested)
-            r = rnd.choice(rules)
+        for j in range(rnd.randint(1, 3)):
+            name, kind, rules = nested[0] if (tag == late[0] and j == 0) else rnd.choice(nested)
+            r = rules[0] if (tag == late[0] and j == 0) else rnd.choice(rules)
             x = r[0]
             if kind == "lig":
                 y = r[1]
@@ -126,6 +126,8 @@ def program(rnd):
     for tag in early:
         pr = []
         ys = rnd.sample(formed, rnd.randint(1, len(formed)))
+        if tag == early[0] and formed[0] not in ys and rnd.random() < 0.85:
+            ys.insert(0, formed[0])
         kind = rnd.random()
         if kind < 0.6:
             pr.append(" ".join("sub %s by %s;" % (y, form[y]) for y in ys))
@@ -138,7 +140,7 @@ def program(rnd):
             pr.append("sub %s by %s %s;" % (q, rnd.choice(bases), form[y]))
         prods.append("feature %s { %s } %s;" % (tag, " ".join(pr), tag))
     fea = "\n".join(lines + body + feats + prods) + "\n"
-    return {"glyphs": glyphs, "fea": fea, "scripts": scripts, "late": late, "early": early,
+    return {"glyphs": glyphs, "n_bases": n, "fea": fea, "scripts": scripts, "late": late, "early": early,
             "nested": [(nm, kd) for nm, kd, _r in nested]}
 
 
@@ -149,7 +151,8 @@ def build(prog):
     order = prog["glyphs"]
     fb = FontBuilder(1000, isTTF=True)
     fb.setupGlyphOrder(order)
-    fb.setupCharacterMap({PUA + i: g for i, g in enumerate(order)})
+    nb = prog["n_bases"]
+    fb.setupCharacterMap({PUA + i: g for i, g in enumerate(order) if i <= nb})   # only .notdef and the bases are encoded
     glyphs = {}
     for i, g in enumerate(order):
         pen = TTGlyphPen(None)
